@@ -1,6 +1,7 @@
 package registry
 
 import (
+	"go/token"
 	"go/types"
 	"path"
 	"strings"
@@ -61,6 +62,12 @@ func (p Package) uniqueName(lvl int) string {
 	var name string
 	for i := 0; i < min(len(pp), lvl+1); i++ {
 		name = strings.ToLower(replacer.Replace(pp[i])) + name
+	}
+
+	// Path elements may be keywords (go, type), start with a digit (1st) or
+	// vanish completely (-): keep the alias a valid identifier.
+	if !token.IsIdentifier(name) {
+		name = "pkg" + name
 	}
 
 	return name
